@@ -235,6 +235,67 @@ theorem rangeSliceFrom_no_panic {M V : Type} (read : M → Nat → Option V) (bo
       | some v => simp
     · exact ih (i+1) (body i m) (by omega) (hbody i m hm) x hx
 
+/-! #### the lowered loop with a body that sees the element, mutates memory and may `break` -/
+
+/-- `it := NewSliceIter(sl); for it.MoveNext() { e := it.Current(); body }`: final memory and the number of
+    MoveNext calls.  The body gets the iteration index, the pair read by `Current` and the memory; `true` = break. -/
+def loopSlice {M V : Type} (read : M → Nat → Option V) (body : Nat → Option (Nat × V) → M → M × Bool) :
+    Nat → SliceSt → M → Nat → M × Nat
+  | 0, _, m, p => (m, p)
+  | fuel+1, s, m, p =>
+    match sliceMoveNext s with
+    | (false, _) => (m, p + 1)
+    | (true, s') =>
+      match body s'.idx.toNat (sliceCurrent read s' m) m with
+      | (m', true) => (m', p + 1)
+      | (m', false) => loopSlice read body fuel s' m' (p + 1)
+
+/-- Go's `for i, v := range sl { body }` with `k` elements left from index `i`: final memory and the number of
+    iterations started, plus one when the loop ran to exhaustion (the advance that finds the end) -/
+def goRangeSlice {M V : Type} (read : M → Nat → Option V) (body : Nat → Option (Nat × V) → M → M × Bool) :
+    Nat → Nat → M → Nat → M × Nat
+  | 0, _, m, p => (m, p + 1)
+  | k+1, i, m, p =>
+    match body i ((read m i).map (fun v => (i, v))) m with
+    | (m', true) => (m', p + 1)
+    | (m', false) => goRangeSlice read body k (i+1) m' (p + 1)
+
+theorem loopSlice_from {M V : Type} (read : M → Nat → Option V) (body : Nat → Option (Nat × V) → M → M × Bool) (n : Nat) :
+    ∀ (k i : Nat) (m : M) (p : Nat), i + k = n →
+      loopSlice read body (k+1) ⟨n, (i : Int) - 1⟩ m p = goRangeSlice read body k i m p := by
+  intro k
+  induction k with
+  | zero =>
+    intro i m p h
+    have hi : ¬ ((i : Int) - 1 + 1 < (n : Int)) := by omega
+    simp only [loopSlice, sliceMoveNext, goRangeSlice, hi, decide_false]
+  | succ k ih =>
+    intro i m p h
+    have hi : ((i : Int) - 1 + 1 < (n : Int)) := by omega
+    have e1 : (i : Int) - 1 + 1 = (i : Int) := by omega
+    have e2 : ((i : Int)).toNat = i := by omega
+    have hc : (0 : Int) ≤ (i : Int) ∧ (i : Int) < (n : Int) := by omega
+    have e3 : (((i + 1 : Nat) : Int) - 1) = (i : Int) := by omega
+    rw [loopSlice]
+    simp only [sliceMoveNext, decide_true, e1, goRangeSlice, sliceCurrent, hc, and_self, if_true, e2]
+    cases hb : body i (Option.map (fun v => (i, v)) (read m i)) m with
+    | mk m' b =>
+      cases b with
+      | true => rfl
+      | false =>
+        have ih' := ih (i+1) m' (p+1) (by omega)
+        rw [e3] at ih'
+        exact ih'
+
+/-- the lowered loop over a slice = Go's range over the slice, for every length, memory and body - a body that
+    sees each (index, element) pair, writes, appends, reslices, and may break; the same final memory, and
+    MoveNext called exactly (iterations started) + (1 if the loop ran to exhaustion) times -/
+theorem loopSlice_eq_goRange {M V : Type} (read : M → Nat → Option V) (body : Nat → Option (Nat × V) → M → M × Bool)
+    (n : Nat) (m : M) :
+    loopSlice read body (n+1) (newSliceIter n) m 0 = goRangeSlice read body n 0 m 0 := by
+  have h := loopSlice_from read body n n 0 m 0 (by omega)
+  simpa [newSliceIter] using h
+
 /-! #### the mutation scripts of correspondence K3 as a memory: the iterator's backing array, the program's
     own slice variable (length, whether it still points to that array) -/
 
